@@ -598,7 +598,8 @@ impl DOP853 {
                 k1.copy_from_slice(&k4);
                 y.copy_from_slice(&k5);
                 xold = x;
-                x = xph;
+                // x + (xend - x) can round to a neighbour of xend: land exactly
+                x = if last { xend } else { xph };
 
                 // Call to SolOut
                 if let Some(solout) = solout.as_mut() {
